@@ -156,14 +156,14 @@ CHECKS.update({
 })
 CHECKS.update({
  'C14': dict(
-   text="Proof (partial: safety half): Properties/C14.v - for the model of FindLinker as the code is now (get_relocate_candidates step by step, relocate, merge_lost_subnets, assign_links): one "
+   text="Proof: Properties/C14.v (safety half for the code as it is; completeness half for the model under explicit boolean hypotheses) - for the model of FindLinker as the code is now (get_relocate_candidates step by step, relocate, merge_lost_subnets, assign_links): one "
         "step keeps the linker state valid, labels unique, and every added feature lies within search_range of a live source, for ANY relocation oracle; no relocation candidate is closer "
         "than separation to a point the frame already holds (masking argument; the fixed bg_radius provably covers it); candidates are within range of a searched position, pairwise "
         "separated, outside the margin with finite mass >= minmass; the image search is an admissible oracle; by induction over frames (with memory) every output frame satisfies the safety "
         "clauses; monitor sound; the pre-fix bg_radius (F12) and edge test (F16) are refuted on witnesses. Correspondence: get_relocate_candidates driven directly and compared as a set with "
         "masses and ordering; find_link on blob movies and noise textures checked by the monitor. Completeness half proved for the model (C14_movie_complete, C14_equals_detect_then_link) under boolean hypotheses evaluated in Coq on every generated movie. Route T: FindLinker.percentile_threshold / get_relocate_candidates / relocate are REGENERATED from /repo's source on every run (tools/py2coq_findlink.py -> coq/Gen/findlink.v) and proved to be the model's relocation oracle; the safety theorems are restated for it.",
-   note=STAT_NOTE + "The completeness half (complete trajectories whatever is withheld; equals detect-then-link when nothing is withheld) is an analytic statement about blob images: no theorem "
-        "is possible, it is monitored on generated movies with withholding patterns. Isotropic parameters, integer pixel coordinates, no predictor; subnet bookkeeping of FindLinker is tied "
-        "only through the monitor.",
+   note=STAT_NOTE + "The completeness half is proved for the MODEL under an oracle hypothesis (the image search returns exactly the unknown blobs in range) that is tested, not proved, for the real "
+        "image search on blob images. Isotropic parameters, integer pixel coordinates, no predictor; assign_links / next_level and the lost-feature methods of Subnets are tied only through the "
+        "monitor and the correspondence runs.",
    technique="machine-checked proofs over an executable Gallina model + translator from Python source to Coq (regenerated per run, proved equal to the model) + correspondence run"),
 })
